@@ -43,7 +43,8 @@ def _parse(files):
         for _, st in steps[1:]:
             events.append(tuple(st["ev"]))
             expected.append((st["v"]["r1"], st["v"]["r2"], st["v"]["r3"], st["v"]["r4a"] + 2 * st["v"]["r4b"],
-                             st["v"]["mw"], st["v"]["mr"], st["v"]["mt"]))
+                             st["v"]["mw"], st["v"]["mr"], st["v"]["mt"],
+                             1 + 6 * st["v"]["r1"]))      # r5: bits 1..2 follow r1 (same domain and data), bit 0 keeps its initial 1
         out.append((cfg, events, expected))
     return out
 
@@ -92,7 +93,7 @@ def run(ctx):
                 key = {"ws": [(w["k"], w["dom"], w.get("c", w.get("to"))) for w in cfg["ws"]],
                        "A": (cfg["A"]["edge"], cfg["A"]["rst"]), "B": (cfg["B"]["edge"], cfg["B"]["rst"]),
                        "d1": cfg["d1"], "d2": cfg["d2"], "decl": cfg.get("decl"), "error": mm.get("error", "").split(":")[0]}
-                ctx.violation(key, "design %s: after event #%d %s state (r1, r2, r3, r4, mw, mr, mt) = %s, AmDesign says %s%s" % (
+                ctx.violation(key, "design %s: after event #%d %s state (r1, r2, r3, r4, mw, mr, mt, r5) = %s, AmDesign says %s%s" % (
                     cfg, mm["step"], mm.get("event"), mm.get("actual"), mm.get("expected"), (" " + mm["error"]) if "error" in mm else ""),
                     replay=mm)
     ctx.cov["stages"]["replay/behaviours"] = {"behaviours": n, "events_each": depth, "by_wrapper_stack_depth": stacks}
